@@ -635,38 +635,43 @@ def check_consumers(chk):
         _check_sorts(chk, lib, lf.pyname, lf.func, compare_names={'value_compare'}, allow_param_fn=True)
         sd = dmod.func('sort_data', 'C11.U')
         _check_sorts(chk, dmod, 'sort_data', sd, compare_names={'_sort_data_fn'}, allow_param_fn=False)
-    fn = dmod.func('_sort_data_fn', 'C11.U')
-    # abstract execution (E6l) of the row comparator over opaque values a < b < c (null lowest): sign of the first differing key, flipped for descending keys
-    from .. import libsim
-    it = libsim.LibInterp(chk.repo, dmod, 'C11.U')
-    rank, cases = libsim.sort_fn_scenarios()
-    it.rank = rank
-    n_cases = 0
-    wrong = None
-    for spec, r1, r2, want in cases:
-        n_cases += 1
-        try:
-            got = it.run(fn, [libsim._abs(spec), libsim._abs(r1), libsim._abs(r2)])
-        except libsim.HostOrdering as ho:
-            chk.bad('C11.U', dmod, '_sort_data_fn', 'host comparison of row values',
-                    'the data sort comparator compares row values with a host operator (==, <, min ...) instead of value_compare: Python equality identifies true with 1 and false with 0 '
-                    '(and [true] with [1]), so such rows tie although the value comparison orders them; the sorted output is then not ordered under the comparison every other consumer uses',
-                    node=ho.node if ho.node is not None else fn)
-            wrong = 'reported'
-            break
-        sgn = None
-        if got[0] == 'value' and isinstance(got[1], (int, float)) and not isinstance(got[1], bool):
-            sgn = (got[1] > 0) - (got[1] < 0)
-        if sgn != want and wrong is None:
-            wrong = (spec, r1, r2, got, want)
-    if wrong is None:
-        chk.ok('C11.U', f'_sort_data_fn: {n_cases} abstract calls (0-2 keys, ascending / descending, missing and null fields): sign of the first key on which the rows differ under value_compare, '
-               f'reversed for descending keys, 0 when all keys tie', count=n_cases)
-    elif wrong != 'reported':
-        spec, r1, r2, got, want = wrong
-        chk.bad('C11.U', dmod, '_sort_data_fn', f'sorts={spec!r}: {got[1] if got[0] == "value" else got[:2]!r} instead of sign {want}',
-                f'abstract execution: _sort_data_fn({spec!r}, {libsim.show_arg(list(r1.items()))}, {libsim.show_arg(list(r2.items()))}) gives {got[1] if got[0] == "value" else got[:2]!r}; the rows differ first on a key whose '
-                f'value comparison (reversed for a descending key) has sign {want}', node=fn)
+    def direct_comparator():
+        fn = dmod.func('_sort_data_fn', 'C11.U')
+        # abstract execution (E6l) of the row comparator over opaque values a < b < c (null lowest): sign of the first differing key, flipped for descending keys
+        from .. import libsim
+        it = libsim.LibInterp(chk.repo, dmod, 'C11.U')
+        rank, cases = libsim.sort_fn_scenarios()
+        it.rank = rank
+        n_cases = 0
+        wrong = None
+        for spec, r1, r2, want in cases:
+            n_cases += 1
+            try:
+                got = it.run(fn, [libsim._abs(spec), libsim._abs(r1), libsim._abs(r2)])
+            except libsim.HostOrdering as ho:
+                chk.bad('C11.U', dmod, '_sort_data_fn', 'host comparison of row values',
+                        'the data sort comparator compares row values with a host operator (==, <, min ...) instead of value_compare: Python equality identifies true with 1 and false with 0 '
+                        '(and [true] with [1]), so such rows tie although the value comparison orders them; the sorted output is then not ordered under the comparison every other consumer uses',
+                        node=ho.node if ho.node is not None else fn)
+                wrong = 'reported'
+                break
+            sgn = None
+            if got[0] == 'value' and isinstance(got[1], (int, float)) and not isinstance(got[1], bool):
+                sgn = (got[1] > 0) - (got[1] < 0)
+            if sgn != want and wrong is None:
+                wrong = (spec, r1, r2, got, want)
+        if wrong is None:
+            chk.ok('C11.U', f'_sort_data_fn: {n_cases} abstract calls (0-2 keys, ascending / descending, missing and null fields): sign of the first key on which the rows differ under value_compare, '
+                   f'reversed for descending keys, 0 when all keys tie', count=n_cases)
+        elif wrong != 'reported':
+            spec, r1, r2, got, want = wrong
+            chk.bad('C11.U', dmod, '_sort_data_fn', f'sorts={spec!r}: {got[1] if got[0] == "value" else got[:2]!r} instead of sign {want}',
+                    f'abstract execution: _sort_data_fn({spec!r}, {libsim.show_arg(list(r1.items()))}, {libsim.show_arg(list(r2.items()))}) gives {got[1] if got[0] == "value" else got[:2]!r}; the rows differ first on a key whose '
+                    f'value comparison (reversed for a descending key) has sign {want}', node=fn)
+
+    # the sort evaluation above runs sort_data as a whole; the direct calls of its comparator helper (under its present name and signature) are a read-back of it
+    sort_data_ok = (not [p for p in sproblems if p[0] == 'sort_data']) if decided else None
+    chk.readback(sort_data_ok)('C11.U', direct_comparator)
 
 
 def _row_of(node, fn):
